@@ -883,7 +883,7 @@ func pathAsserts(path []ssa.Instruction, pred func(c ssa.Value, truth bool) bool
 		// the condition may be the result of a walked-through helper (or a phi this path fixes): what the
 		// edge asserts is then the condition the helper returned on this path
 		if curPath != nil && curEdgeIdx >= 0 {
-			rc := valueOnPath(rvI(c, curEdgeIdx), path)
+			rc := resolveOn(c, curEdgeIdx, path)
 			for k := 0; rc != c && k < 6; k++ {
 				nc, neg := stripNot(rc)
 				if neg {
@@ -1404,7 +1404,7 @@ func rvLast(v ssa.Value) ssa.Value {
 	if curPath == nil || len(curPath.path) == 0 {
 		return v
 	}
-	return valueOnPath(rvI(v, len(curPath.path)-1), curPath.path)
+	return resolveOn(v, len(curPath.path)-1, curPath.path)
 }
 
 // rvAny resolves a value whose frame is not known: tries the frame of its defining instruction.
@@ -1573,7 +1573,7 @@ func phiFeasible(b *ssa.BasicBlock, succ int, path []ssa.Instruction) bool {
 	}
 	// a condition that this path has already fixed: the result of a walked-through helper, a phi of constants
 	{
-		r := valueOnPath(rvI(c, len(path)-1), path)
+		r := resolveOn(c, len(path)-1, path)
 		if os.Getenv("XDEBUG") == "2" && theWorld != nil {
 			fmt.Fprintf(os.Stderr, "  phiFeasible %s cond %s -> %s (%T)\n", theWorld.ipos(path[len(path)-1]), c.Name(), r.String(), r)
 		}
@@ -1585,7 +1585,7 @@ func phiFeasible(b *ssa.BasicBlock, succ int, path []ssa.Instruction) bool {
 	if ex, isEx := c.(*ssa.Extract); isEx && ex.Index == 1 && theWorld != nil {
 		if lk, isLk := ex.Tuple.(*ssa.Lookup); isLk && lk.CommaOk {
 			if t, _ := theWorld.tableLookup(lk); t != nil {
-				if k, isS := stringConst(valueOnPath(rvI(lk.Index, len(path)-1), path)); isS {
+				if k, isS := stringConst(resolveOn(lk.Index, len(path)-1, path)); isS {
 					found := false
 					for _, e := range t {
 						if e.Key == k {
@@ -1598,7 +1598,7 @@ func phiFeasible(b *ssa.BasicBlock, succ int, path []ssa.Instruction) bool {
 		}
 	}
 	if x, eq, isN := nilCompare(c); isN {
-		v := valueOnPath(rvI(x, len(path)-1), path)
+		v := resolveOn(x, len(path)-1, path)
 		// contradiction with an earlier nil test of the same (resolved) value on this path
 		if !isNilConst(v) {
 			contra := false
@@ -1614,7 +1614,7 @@ func phiFeasible(b *ssa.BasicBlock, succ int, path []ssa.Instruction) bool {
 					}
 					if pc2, pt, ok2 := edgeAssertion(pb, si); ok2 {
 						if px, peq, isN2 := nilCompare(pc2); isN2 {
-							pv := valueOnPath(rvI(px, i), path)
+							pv := resolveOn(px, i, path)
 							if pv == v && (peq == pt) != (eq == truth) {
 								contra = true
 							}
@@ -1641,7 +1641,7 @@ func phiFeasible(b *ssa.BasicBlock, succ int, path []ssa.Instruction) bool {
 		return true
 	}
 	if bo, isB := c.(*ssa.BinOp); isB && (bo.Op == token.EQL || bo.Op == token.NEQ) {
-		x, y := valueOnPath(rvI(bo.X, len(path)-1), path), valueOnPath(rvI(bo.Y, len(path)-1), path)
+		x, y := resolveOn(bo.X, len(path)-1, path), resolveOn(bo.Y, len(path)-1, path)
 		cx, okx := constOf(x)
 		cy, oky := constOf(y)
 		if okx && oky && cx.Value != nil && cy.Value != nil {
@@ -1705,7 +1705,7 @@ func rres(path []ssa.Instruction, ret *ssa.Return) []ssa.Value {
 	out := make([]ssa.Value, len(ret.Results))
 	for i, v := range ret.Results {
 		// resolved through walked-through helpers, then through the phis this path fixes
-		out[i] = valueOnPath(rvI(v, idx), path)
+		out[i] = resolveOn(v, idx, path)
 	}
 	return out
 }
@@ -1778,4 +1778,18 @@ func (w *World) dynCallees(scope *ssa.Function, c *ssa.Call) []*ssa.Function {
 		out = append(out, f)
 	}
 	return out
+}
+
+// resolveOn: v as the instruction at index idx of the path sees it — through the parameters and results of
+// walked-through helpers and through the phis the path fixes, repeatedly (a flag variable that receives a helper's
+// result is a phi of a call result).
+func resolveOn(v ssa.Value, idx int, path []ssa.Instruction) ssa.Value {
+	for i := 0; i < 6; i++ {
+		n := valueOnPath(rvI(v, idx), path)
+		if n == v {
+			return v
+		}
+		v = n
+	}
+	return v
 }
